@@ -15,6 +15,7 @@ DECIDED = ("R1 crash sequence in Sim::crash: World::current is set to the host b
            "Fs / io_uring state up under the same address as the runtime; Host::new builds fresh Arcs).")
 NOT_DECIDED = "that destructors of user tasks run (tokio's contract for dropping a runtime), prompt unblocking times."
 DECIDED += "; R7 exhaustive scans: Sim::crash, Sim::run_with_hosts and IoUringHostState::crash visit every element"
+DECIDED += "; R8 peers are told: an abandoned, already answered connect resets the peer's stream; a RST wakes a writer parked on flow control (recorded finding D32)"
 ASSUMPTIONS = ["dropping a tokio Runtime and LocalSet drops every task they own"]
 
 
